@@ -273,6 +273,10 @@ pub fn exec_one(args: &[String]) {
 use std::collections::HashMap;
 use std::sync::{Arc, Mutex};
 
+/// With several evaluating threads a try_lock probe of a global store fails whenever another thread is inside its own
+/// critical section, so the registry lock bits are only observed single-threaded.
+pub static CONCURRENT: std::sync::atomic::AtomicBool = std::sync::atomic::AtomicBool::new(false);
+
 pub struct CaseState {
     pub rets: HashMap<String, Value>,
     pub acts: HashMap<String, String>,
@@ -284,7 +288,10 @@ pub struct CaseState {
     pub ctx_lock_blocking: Option<Box<dyn Fn() + Send>>,
 }
 
-pub static CASE: Mutex<Option<CaseState>> = Mutex::new(None);
+// one case per evaluating thread (handlers run on the thread that evaluates), so that evaluations can run concurrently (C16)
+thread_local! {
+    pub static CASE: std::cell::RefCell<Option<CaseState>> = std::cell::RefCell::new(None);
+}
 
 fn an_error() -> expression_engine::Result<Value> {
     // the crate does not export its Error type; obtain one from an accessor
@@ -294,16 +301,18 @@ fn an_error() -> expression_engine::Result<Value> {
 /// The scripted, logging handler with identity `h`.
 pub fn handler_body(h: &str, args: Vec<Value>) -> expression_engine::Result<Value> {
     let (outcome, act, reenter): (Result<Value, String>, String, Option<Box<dyn Fn() + Send>>) = {
-        let mut g = CASE.lock().unwrap_or_else(|e| e.into_inner());
+        CASE.with(|cell| {
+        let mut g = cell.borrow_mut();
         let c = g.as_mut().expect("handler invoked outside a case");
         c.n += 1;
         let ctx_free = c.ctx_try_lock.as_ref().map(|f| f()).unwrap_or(true);
-        let regs = expression_engine::verif_hooks::locks_free();
-        c.log.push(json!([h, args.iter().map(value_to_json).collect::<Vec<_>>(), ctx_free, regs.iter().all(|b| *b)]));
+        let regs_free = CONCURRENT.load(std::sync::atomic::Ordering::SeqCst) || expression_engine::verif_hooks::locks_free().iter().all(|b| *b);
+        c.log.push(json!([h, args.iter().map(value_to_json).collect::<Vec<_>>(), ctx_free, regs_free]));
         let act = c.acts.get(h).cloned().unwrap_or_default();
         let o = if c.fault_k == c.n { Err(c.fault_kind.clone()) } else { Ok(c.rets.get(h).cloned().unwrap_or(Value::None)) };
         let re = if act == "lockctx-blocking" { c.ctx_lock_blocking.take() } else { None };
         (o, act, re)
+        })
     };
     // re-entrant actions run outside the harness's own bookkeeping lock
     match act.as_str() {
@@ -452,7 +461,7 @@ pub fn run_case(r: &J, followups: bool) -> Observed {
     let handle = ctx.0.clone();
     let handle2 = ctx.0.clone();
     let fault = &r["fault"];
-    *CASE.lock().unwrap_or_else(|e| e.into_inner()) = Some(CaseState {
+    CASE.with(|cell| *cell.borrow_mut() = Some(CaseState {
         rets,
         acts,
         fault_k: fault[0].as_u64().unwrap_or(0),
@@ -463,14 +472,14 @@ pub fn run_case(r: &J, followups: bool) -> Observed {
         ctx_lock_blocking: Some(Box::new(move || {
             let _g = handle2.lock();
         })),
-    });
+    }));
     let res = guarded(std::panic::AssertUnwindSafe(|| ast.exec(&mut ctx)));
     let (st, val) = match &res {
         Err(_) => ("panic".to_string(), json!(["none"])),
         Ok(Err(_)) => ("err".to_string(), json!(["none"])),
         Ok(Ok(v)) => ("ok".to_string(), value_to_json(v)),
     };
-    let log = CASE.lock().unwrap_or_else(|e| e.into_inner()).as_ref().map(|c| c.log.clone()).unwrap_or_default();
+    let log = CASE.with(|cell| cell.borrow().as_ref().map(|c| c.log.clone()).unwrap_or_default());
     // final context through the public field and the accessors
     let mut poisoned = false;
     let keys: Vec<String> = match ctx.0.lock() {
@@ -515,7 +524,7 @@ pub fn run_case(r: &J, followups: bool) -> Observed {
                 g.remove("__probe");
             }
         }
-        if !expression_engine::verif_hooks::locks_free().iter().all(|b| *b) {
+        if !CONCURRENT.load(std::sync::atomic::Ordering::SeqCst) && !expression_engine::verif_hooks::locks_free().iter().all(|b| *b) {
             fu.push("a registry mutex is held or poisoned after the evaluation".to_string());
         }
         let other = std::thread::spawn(|| guarded(|| expression_engine::execute("2 * 3 + 1", Context::new()))).join();
@@ -527,7 +536,7 @@ pub fn run_case(r: &J, followups: bool) -> Observed {
             fu.push("registration panics afterwards".to_string());
         }
     }
-    *CASE.lock().unwrap_or_else(|e| e.into_inner()) = None;
+    CASE.with(|cell| *cell.borrow_mut() = None);
     Observed { st, val, ctx: J::Object(cj), log, poisoned, followups: fu }
 }
 
@@ -730,6 +739,7 @@ pub fn eval_record(args: &[String]) {
     let maxdepth = arg_u64(args, "--depth", 4) as u32;
     let mut out = Out::new(arg_value(args, "--out").as_deref());
     let mut r = rng(seed, 70);
+    let mut cases: Vec<J> = Vec::new();
     for _ in 0..n {
         let mut handlers = serde_json::Map::new();
         for (i, h) in ["h1", "h2", "h3", "h4", "h5", "h6"].iter().enumerate() {
@@ -750,11 +760,101 @@ pub fn eval_record(args: &[String]) {
             1 => json!([r.gen_range(1..6), "panic"]),
             _ => json!([0, "none"]),
         };
-        let case = json!({"prog": prog, "ctx0": ctx0, "handlers": handlers, "gfun": {"G1": "h5", "G2": "h6"}, "fault": fault});
-        let o = run_case(&case, true);
-        let mut rec = case;
-        rec["obs"] = json!({"st": o.st, "val": o.val, "ctx": o.ctx, "log": o.log, "poisoned": o.poisoned, "followups": o.followups});
-        out.line(&rec);
+        cases.push(json!({"prog": prog, "ctx0": ctx0, "handlers": handlers, "gfun": {"G1": "h5", "G2": "h6"}, "fault": fault}));
     }
+    // run the cases: on one thread, or spread over `--threads` threads that evaluate concurrently, each on its own contexts (C16)
+    let nthreads = arg_u64(args, "--threads", 1) as usize;
+    CONCURRENT.store(nthreads > 1, std::sync::atomic::Ordering::SeqCst);
+    let cases = Arc::new(cases);
+    let results: Arc<Mutex<Vec<Option<J>>>> = Arc::new(Mutex::new(vec![None; cases.len()]));
+    let mut hs = Vec::new();
+    for k in 0..nthreads {
+        let cases = cases.clone();
+        let results = results.clone();
+        hs.push(std::thread::spawn(move || {
+            let mut i = k;
+            while i < cases.len() {
+                let o = run_case(&cases[i], true);
+                let mut rec = cases[i].clone();
+                rec["obs"] = json!({"st": o.st, "val": o.val, "ctx": o.ctx, "log": o.log, "poisoned": o.poisoned, "followups": o.followups});
+                results.lock().unwrap()[i] = Some(rec);
+                i += nthreads;
+            }
+        }));
+    }
+    for h in hs {
+        let _ = h.join();
+    }
+    for r in results.lock().unwrap().iter() {
+        match r {
+            Some(rec) => out.line(rec),
+            None => out.line(&json!({"lost": true})),
+        }
+    }
+    out.flush();
+}
+
+
+/// determinism-replay <file>: C16.  Every case is evaluated three times on equal, freshly built contexts, interleaved with the
+/// evaluation of its neighbours (other programs, other contexts); the outcomes must be identical, the registries (hook H5
+/// snapshot: names, configuration, handler identity) must be the same before and after every parse and evaluation, and parsing the
+/// program text twice must give equal trees and leave the context alone.
+pub fn determinism_replay(args: &[String]) {
+    silence_panics();
+    expression_engine::verif_hooks::init();
+    let recs = read_ndjson(&args[0]);
+    let mut out = Out::new(None);
+    let (mut n, mut bad) = (0u64, 0u64);
+    let obs_key = |o: &Observed| json!([o.st, o.val, o.ctx, o.log.iter().map(|e| json!([e[0], e[1]])).collect::<Vec<_>>()]);
+    for idx in 0..recs.len() {
+        n += 1;
+        let mut why: Vec<String> = Vec::new();
+        // warm-up so that the registrations this case needs are in place before the snapshot
+        let first = run_case(&recs[idx], false);
+        let snap0 = expression_engine::verif_hooks::registry_snapshot();
+        let neighbour = &recs[(idx + 1) % recs.len()];
+        let other = run_case(neighbour, false);
+        let second = run_case(&recs[idx], false);
+        let _ = run_case(&recs[(idx + 7) % recs.len()], false);
+        let third = run_case(&recs[idx], false);
+        if obs_key(&first) != obs_key(&second) || obs_key(&first) != obs_key(&third) {
+            why.push("the same program on equal contexts gave different outcomes when other programs were evaluated in between".into());
+        }
+        let other_again = run_case(neighbour, false);
+        if obs_key(&other) != obs_key(&other_again) {
+            why.push("a neighbouring evaluation changed its outcome".into());
+        }
+        // registrations made by run_case re-register the same names with fresh closures, so compare names and configuration only
+        let snap1 = expression_engine::verif_hooks::registry_snapshot();
+        let names = |s: &expression_engine::verif_hooks::RegistrySnapshot| {
+            (s.prefix.iter().map(|x| x.0.clone()).collect::<Vec<_>>(), s.infix.iter().map(|x| (x.0.clone(), x.1, x.2, x.3)).collect::<Vec<_>>(),
+             s.postfix.iter().map(|x| x.0.clone()).collect::<Vec<_>>(), s.function.iter().map(|x| x.0.clone()).collect::<Vec<_>>())
+        };
+        if names(&snap0) != names(&snap1) {
+            why.push("evaluating programs changed a registry".into());
+        }
+        // parse alone: render the tree, parse the text twice, compare, and check that nothing observable changed
+        let mut ctx = Context::new();
+        let mut hidden = 0u32;
+        let ast = build_ast(&recs[idx]["prog"], &mut ctx, &mut hidden);
+        let text = ast.expr();
+        let before = expression_engine::verif_hooks::registry_snapshot();
+        let t1 = text.clone();
+        let t2 = text.clone();
+        let p1 = guarded(move || parse_expression(leak(&t1)).map(|a| crate::astjson::ast_to_json(&a)).ok());
+        let _mid = guarded(|| parse_expression("zz = [1, 2 ;"));
+        let p2 = guarded(move || parse_expression(leak(&t2)).map(|a| crate::astjson::ast_to_json(&a)).ok());
+        if p1 != p2 {
+            why.push(format!("parsing {:?} twice gave different results", text));
+        }
+        if expression_engine::verif_hooks::registry_snapshot() != before {
+            why.push("parsing changed a registry (names, configuration or handler identity)".into());
+        }
+        if !why.is_empty() {
+            bad += 1;
+            out.line(&json!({"mismatch": idx, "why": why}));
+        }
+    }
+    out.line(&json!({"summary": {"cases": n, "mismatches": bad}}));
     out.flush();
 }
